@@ -15,6 +15,21 @@ Proof. unfold run. rewrite eq_ty_bridge. reflexivity. Qed.
 Theorem equal_terminates D s t : exists b M, run D s t = Ok (b, M).
 Proof. rewrite run_bridge. apply eq_ty_terminates. Qed.
 
+Theorem equal_terminates_ge D s t K : TcDeps.eq_fuel D s t <= K ->
+  exists b M, TcDeps.eq_ty K D (S (tsize s + tsize t)) s t [] = Ok (b, M).
+Proof. intros HK. rewrite eq_ty_bridge. apply eq_ty_terminates_ge. exact HK. Qed.
+
+(* soundness and completeness for ANY fuel: whenever a run returns, its answer is right *)
+Theorem eq_ty_sound_any D k n s t M :
+  wf_env D = true -> wf_ty D s = true -> wf_ty D t = true ->
+  TcDeps.eq_ty k D n s t [] = Ok (true, M) -> Bisim D s t.
+Proof. intros HD Ws Wt H. rewrite eq_ty_bridge in H. eapply eq_ty_sound; eauto. apply key_injective. Qed.
+
+Theorem eq_ty_complete_any D k n s t M0 b M :
+  wf_env D = true -> wf_ty D s = true -> wf_ty D t = true ->
+  Bisim D s t -> TcDeps.eq_ty k D n s t M0 = Ok (b, M) -> b = true.
+Proof. intros HD Ws Wt Hb H. rewrite eq_ty_bridge in H. exact (eq_ty_complete D HD _ _ _ _ _ _ _ Ws Wt Hb H). Qed.
+
 Theorem equal_sound D s t M :
   wf_env D = true -> wf_ty D s = true -> wf_ty D t = true ->
   run D s t = Ok (true, M) -> Bisim D s t.
